@@ -232,9 +232,19 @@ CLAIMED['C19'] = dict(
     technique="rule-of-three and returned-shift dataflow rules over class facts and resolved call sites; loop-bound provenance, countdown-loop shape, sequential-removal shape and reservation/consumption comparison over the clang-resolved AST",
     ref="DESIGN.md section 4, C19")
 
+CLAIMED['C10'] = dict(
+    text="Structural necessary conditions only; the numerical statement (residuals at rounding level, well-conditioned matrices never reported singular) "
+         "is NOT decided. Decided, exhaustively over every rule instance in CLUFactor<R> / SLUFactor<R>: every subscript of a permutation, diagonal, "
+         "start/length or index/value array whose index was read from an array of known value domain is of that array's index domain (row, column, "
+         "pivot position, file offset; 429 of 806 subscripts are decided, loop counters and parameters carry no verdict); an assignment of SINGULAR "
+         "to the status is followed by return / throw, factor() tests the status between its stages, the status is reset to OK only where a "
+         "factorization starts or a product-form update completes, SPxBasisBase::factorize maps SINGULAR to a singular unfactorized basis and "
+         "throws; in the two- and three-right-hand-side solves every call hands over the data of one right-hand side and every right-hand side "
+         "passes the stages of the single solve; plus the generic shape rules over these files.",
+    technique="index-domain (units-of-measure) inference over array value domains with alias resolution, statement-successor and decision-table rules, call-argument grouping and stage-set comparison between sibling solve variants over the clang-resolved AST",
+    ref="DESIGN.md section 4, C10")
+
 NA = {
-    'C10': "every clause quantifies over run-time numbers (residuals at rounding level, singular vs. well-conditioned, agreement of multi-rhs solves); "
-           "no structural clause is both checkable and necessary (DESIGN.md section 5)",
 }
 
 PENDING = "rule module not built yet in this round (design exists in DESIGN.md section 4); not claimed until its check runs"
